@@ -87,9 +87,9 @@ Definition run_write (l : list val) : val :=
   | None => VErr 2
   | Some f =>
       let es := map entry_of_val (lval (vnth l 7)) in
-      let emit := Z.to_nat (zval (vnth l 8)) in
+      let emit := zval (vnth l 8) in
       let '(recs, c, out) := write_archive f es in
-      VL [VL (map val_of_rec recs); VI c; VI (lenZ out); VBz (firstn emit out)]
+      VL [VL (map val_of_rec recs); VI c; VI (lenZ out); VBz (if lenZ out <=? emit then out else firstn (Z.to_nat emit) out)]
   end.
 
 (* numeric codec unit cases: (10 kind v s maxsize strict) -> (ret bytes);  (11 kind bytes) -> (value) *)
